@@ -6,7 +6,14 @@ M1  "...%r..." % symbolic  inside yaml/{scanner,parser,composer,constructor,reso
     reader,error}.py  -> fixed placeholder (all such sites build exception messages;
     message text is not part of any property decided with M1 active).
 M2  '<prefix>%0<w>X' % symbolic_int  -> digit string built arithmetically.
-M3  int(symbolic_str, 16)            -> digit-wise arithmetic, one fork on validity.
+M3  int(symbolic_str[, base])        -> pymodels.py_int run under the tracer (exact model of
+    CPython's parser incl. Unicode digits/spaces; differential self-test in pymodels).
+M4e str.encode('ascii'|'utf-8'|'utf-16-le/be') on a symbolic str -> pymodels.encode_values
+    (CrossHair's own codecs realise the whole string to build the exception object).
+M3f float(symbolic_str)              -> validity decided exactly by pymodels.float_valid; the
+    *value* of a valid literal is left to CrossHair's own model when it has one, otherwise
+    a fresh unconstrained symbolic float (over-approximation: only used where the value
+    is not part of the postcondition).
 """
 import re
 import sys
@@ -17,11 +24,11 @@ ERR_FILES = ('yaml/scanner.py', 'yaml/parser.py', 'yaml/composer.py', 'yaml/cons
 PLACEHOLDER = '<msg>'
 
 
-def install(m1=True):
-    global _installed
-    if _installed:
-        return
-    _installed = True
+def overrides(m1=True):
+    """{builtin: override} to be added as a *second* layer on CrossHair's patching module
+    (engine.run_cell does that after entering Patched()); a call of the same builtin made
+    from inside an override is routed by the tracer to the next lower layer (CrossHair's
+    own model), so the fall-through paths below simply call the builtin again."""
     import z3
     from crosshair import core
     from crosshair.tracers import NoTracing
@@ -52,30 +59,102 @@ def install(m1=True):
                     inrange = z3.And(n >= 0, n < 16 ** width)
                     if space.smt_fork(inrange, probability_true=0.9):
                         return LazyIntSymbolicStr(cps)
-        other = deep_realize(other)
-        with NoTracing():
-            return str.__mod__(self, other)
-    core._PATCH_REGISTRATIONS[str.__mod__] = _fmt
+        return str.__mod__(self, other)
 
-    orig_int = core._PATCH_REGISTRATIONS[int]
+    from crosshair.libimpl.builtinslib import AnySymbolicStr, SymbolicBool
+    from crosshair.core import proxy_for_type
+    from crosshair.tracers import ResumedTracing
+    from . import pymodels
+
+    def _sym_decimal(cp):
+        with NoTracing():
+            if not isinstance(cp, SymbolicInt):
+                return pymodels._ND_SET.get(int(cp), -1)
+            v = cp.var
+            space = core.context_statespace()
+            isnd = z3.Or(*[z3.And(v >= st, v <= st + 9) for st in pymodels._ND_STARTS])
+            if not space.smt_fork(isnd, probability_true=0.3):
+                return -1
+            val = z3.IntVal(0)
+            for st in pymodels._ND_STARTS:
+                val = z3.If(z3.And(v >= st, v <= st + 9), v - st, val)
+            return SymbolicInt(val)
+
+    def _sym_space(cp):
+        with NoTracing():
+            if not isinstance(cp, SymbolicInt):
+                return int(cp) in pymodels._SPACE_HI_SET
+            v = cp.var
+            space = core.context_statespace()
+            return space.smt_fork(z3.Or(*[v == c for c in pymodels._SPACE_HI]), probability_true=0.3)
+    pymodels._symbolic_hooks['uni_decimal'] = _sym_decimal
+    pymodels._symbolic_hooks['uni_space'] = _sym_space
 
     def _int(val=0, *a, **kw):
-        base = a[0] if a else kw.get('base', None)
+        base = a[0] if a else kw.get('base', 10)
         with NoTracing():
-            sym = (isinstance(val, LazyIntSymbolicStr) and type(base) is int and base == 16
-                   and isinstance(val._codepoints, (list, tuple)))
-            if sym:
-                cps = list(val._codepoints)
-                space = core.context_statespace()
-                total = z3.IntVal(0)
-                valid = []
-                for cp in cps:
-                    e = cp.var if isinstance(cp, SymbolicInt) else z3.IntVal(cp)
-                    valid.append(z3.Or(z3.And(e >= 48, e <= 57), z3.And(e >= 65, e <= 70),
-                                       z3.And(e >= 97, e <= 102)))
-                    dv = z3.If(e <= 57, e - 48, z3.If(e <= 70, e - 55, e - 87))
-                    total = total * 16 + dv
-                if cps and space.smt_fork(z3.And(*valid), probability_true=0.9):
-                    return SymbolicInt(total)
-        return orig_int(val, *a, **kw)
-    core._PATCH_REGISTRATIONS[int] = _int
+            sym = isinstance(val, AnySymbolicStr) and type(base) is int and base in (2, 8, 10, 16)
+        if sym:
+            return pymodels.py_int(val, base)
+        return int(val, *a, **kw)
+
+    def _float(val=0.0):
+        with NoTracing():
+            sym = isinstance(val, AnySymbolicStr)
+        if sym:
+            if not pymodels.float_valid(val):
+                raise ValueError('could not convert string to float')
+            with NoTracing():
+                return proxy_for_type(float, 'floatlit' + core.context_statespace().uniq())
+        return float(val)
+    import codecs
+    from crosshair.libimpl.builtinslib import SymbolicBytes
+
+    # M9: str.lower() on a symbolic str.  ASCII exact; U+0130 and U+212A (the only
+    # non-ASCII characters whose lower() contains an ASCII character) exact; a Unicode
+    # decimal digit or space lowers to itself; any other non-ASCII character lowers to
+    # *some* non-ASCII character that is neither a digit nor a space (over-approximation
+    # of the case table: the library only compares lowered text with ASCII words and
+    # feeds it to int()/float()).  Checked against str.lower() in selftest_lower().
+    def _fresh_lower(cp):
+        with NoTracing():
+            space = core.context_statespace()
+            v = cp.var if isinstance(cp, SymbolicInt) else z3.IntVal(int(cp))
+            keep = z3.Or(*([z3.And(v >= st, v <= st + 9) for st in pymodels._ND_STARTS] +
+                          [v == c for c in pymodels._SPACE_HI]))
+            if space.smt_fork(keep, probability_true=0.3):
+                return cp
+            f = z3.Int('lower' + space.uniq())
+            space.add(z3.And(f >= 128, f <= 0x10FFFF,
+                             z3.Not(z3.Or(*([z3.And(f >= st, f <= st + 9) for st in pymodels._ND_STARTS] +
+                                            [f == c for c in pymodels._SPACE_HI])))))
+            return SymbolicInt(f)
+
+    def _lower(self):
+        out = []
+        for ch in self:
+            cp = ord(ch)
+            if cp < 128:
+                out.append(cp + 32 if 65 <= cp <= 90 else cp)
+            elif cp == 0x130:
+                out.append(0x69)
+                out.append(0x307)
+            elif cp == 0x212A:
+                out.append(0x6B)
+            else:
+                out.append(_fresh_lower(cp))
+        with NoTracing():
+            return LazyIntSymbolicStr(out)
+    AnySymbolicStr.lower = _lower
+    LazyIntSymbolicStr.lower = _lower
+
+    def _encode(obj, encoding='utf-8', errors='strict'):
+        with NoTracing():
+            sym = (isinstance(obj, AnySymbolicStr) and type(encoding) is str and errors == 'strict'
+                   and encoding.lower().replace('_', '-') in ('ascii', 'utf-8', 'utf8', 'utf-16-le', 'utf-16-be'))
+        if sym:
+            vals = pymodels.encode_values(obj, encoding)
+            with NoTracing():
+                return SymbolicBytes(vals)
+        return codecs.encode(obj, encoding, errors)
+    return {str.__mod__: _fmt, int: _int, float: _float, codecs.encode: _encode}
